@@ -856,6 +856,8 @@ def config_st(profile):
         'http_compression': profile.get('http_compression', st.just(False)),
         **({'compression_threshold': profile['compression_threshold']}
            if 'compression_threshold' in profile else {}),
+        **({'cors_allowed_origins': profile['cors_allowed_origins']}
+           if 'cors_allowed_origins' in profile else {}),
     })
 
 
@@ -1193,11 +1195,17 @@ class Drawer:
         hdrs = []
         if d(st.integers(0, 5)) == 0:
             hdrs.append(['Origin', d(st.sampled_from(['http://localhost', 'http://evil.example',
-                                                      '']))])
+                                                      '', 'http://b\u00fccher.example',
+                                                      'http://\u2603.example']))])
         if d(st.integers(0, 3)) == 0:
             hdrs.append(['Accept-Encoding', d(st.sampled_from([
                 'gzip', 'deflate', 'br', 'GZIP', 'Deflate', 'gzip;q=0.5', 'br, GZip', 'deflate, gzip',
                 '*', 'identity', '']))])
+        if d(st.integers(0, 7)) == 0:
+            # (echoed into Access-Control-Allow-Headers)
+            hdrs.append(['Access-Control-Request-Headers',
+                         d(st.sampled_from(['x-a', 'x-auth-\u2603', 'content-type, x-\u00e9',
+                                            '\U0001f600']))])
         if d(st.integers(0, 7)) == 0:
             hdrs.append(['Upgrade', d(st.sampled_from(['websocket', 'h2c', 'WebSocket']))])
             if d(st.booleans()):
